@@ -96,8 +96,7 @@ Qed.
 
 Lemma rec_bin_ok r : forallb wf_cigar_op (r_cigar r) = true -> exists bin, rec_bin r = Ok bin.
 Proof.
-  intros H. unfold rec_bin.
-  destruct (Z.land (r_flags r) (Z.lor sam_Unmapped sam_MateUnmapped) =? Z.lor sam_Unmapped sam_MateUnmapped); [eexists; reflexivity|].
+  intros H. unfold rec_bin, sam_Record_Bin.
   unfold rec_end.
   destruct (negb (Z.land (r_flags r) sam_Unmapped =? 0) || (zlen (r_cigar r) =? 0)).
   - cbn [obind]. apply binfor_ok.
